@@ -196,7 +196,8 @@ def _check(ex, step, rec, where):
             ex.type_checks += 1
             _allowed_types(enc, actor, bad)
             if bad:
-                ex.violation('foreign-number-type', key, step, {'actor': actor, 'foreign': bad[:3], 'value': codec.short(enc, 200)})
+                ex.violation('foreign-number-type', key, step, {'actor': actor, 'foreign': bad[:3], 'value': codec.short(enc, 200),
+                                                                  'foreign_operand': _foreign_kind(step)})
     elif rec.get('status') in ('raised', 'faulted'):
         r['value'] = rec.get('exc')
     else:
@@ -204,6 +205,15 @@ def _check(ex, step, rec, where):
     if step.get('nojudge'):
         return                      # settings of every context were checked above; the value is not compared
     ex.records.append(r)
+
+def _foreign_kind(step):
+    """'number' / 'container' / None: does the step hand this context an operand owned by another one?"""
+    from simkit.world import _walk_specs
+    kind = None
+    for sp in _walk_specs(step or {}):
+        if 'owner' in sp:
+            kind = 'container' if sp.get('t') in ('list', 'tuple', 'matrix') else (kind or 'number')
+    return kind
 
 def _strip_owner(step):
     """the same step with every operand owned by the step's own actor (reference runs)"""
@@ -300,10 +310,10 @@ def _judge(res, mode, budget, seed_base):
                 if actor == 'fp' or not step or step.get('kind') != 'call':
                     return None
                 return refs.pristine_eval(_strip_owner(json.loads(json.dumps(step))), 2 * p + 64, mode=mode, seed_base=seed_base)
-            verdict, detail = compare.compare(h, f, get_R, p, t, r.get('exact', False))
+            verdict, detail = compare.compare(h, f, get_R, p, max(t, 12) if actor == 'fp' else t, r.get('exact', False), direct=(actor == 'fp'))
             bump('solo_judged'); bump(verdict)
             if verdict == 'violation':
-                d = {'actor': actor, 'key': r.get('key'), 'prec': p, 'nested': bool(r.get('nested'))}
+                d = {'actor': actor, 'key': r.get('key'), 'prec': p, 'nested': bool(r.get('nested')), 'foreign_operand': _foreign_kind(step)}
                 d.update(detail or {})
                 viol.append({'property': 'C38', 'check': 'differs-from-solo-projection', 'entry': r.get('key'), 'step': r['id'], 'detail': d})
     # (iv) a clone computes what a pristine mp computes at the same precision
@@ -327,7 +337,7 @@ def _judge(res, mode, budget, seed_base):
         verdict, detail = compare.compare(h, f, get_R2, r['prec'], max(r.get('tol') or 8, 4), r.get('exact', False))
         bump('clone_judged')
         if verdict == 'violation':
-            d = {'actor': r['actor'], 'key': r.get('key'), 'prec': r['prec']}
+            d = {'actor': r['actor'], 'key': r.get('key'), 'prec': r['prec'], 'foreign_operand': _foreign_kind(step)}
             d.update(detail or {})
             viol.append({'property': 'C38', 'check': 'clone-differs-from-mp', 'entry': r.get('key'), 'step': r['id'], 'detail': d})
     res.pop('records', None)
